@@ -363,3 +363,131 @@ def matrix_shape(ex, p, args, kw, node):
 
 
 MATRIX_MODEL = {"numpy.zeros#nd": np_zeros_nd, "setitem:Matrix": matrix_setitem, "getitem:Matrix": matrix_getitem, "attr:Matrix.shape": matrix_shape}
+
+
+# ----------------------------------------------------------------------------- symbolic 2-d score matrices (C09 wrappers)
+SMAT = opaque_sort("SMatrix")
+A1 = z3.ArraySort(z3.IntSort(), z3.RealSort())
+A1I = z3.ArraySort(z3.IntSort(), z3.IntSort())
+A2 = z3.ArraySort(z3.IntSort(), z3.ArraySort(z3.IntSort(), z3.RealSort()))
+ROWSUM = z3.Function("np_row_sum", A1, z3.IntSort(), z3.RealSort())          # sum of the first m entries of a row
+ARGMAX = z3.Function("np_argmax", A1, z3.IntSort(), z3.IntSort())            # index of the (first) largest of the first m entries
+
+
+def smatrix(n, m, cell, t=None):
+    """an n x m float matrix given by its cell function (n, m: z3 Int terms)"""
+    return Opq("SMatrix", t if t is not None else z3.Const(fresh_name("smat"), SMAT), dict(n=n, m=m, cell=cell))
+
+
+def _row(mat, i):
+    j = z3.Int("smat_j")
+    return z3.Lambda([j], mat.meta["cell"](i, j))
+
+
+def sm_shape(ex, p, args, kw, node):
+    return [(p, Tup([Num(args[0].meta["n"]), Num(args[0].meta["m"])]))]
+
+
+def sm_sum(ex, p, args, kw, node):
+    mat = args[0]
+    ax, keep = kw.get("axis"), kw.get("keepdims")
+    if not (isinstance(ax, Num) and z3.is_int_value(z3.simplify(ax.t)) and z3.simplify(ax.t).as_long() == 1
+            and isinstance(keep, Bool) and z3.is_true(z3.simplify(keep.t))):
+        raise Unsupported("matrix.sum other than sum(axis=1, keepdims=True)")
+    ex.trace["assumed"].add("numpy: m.sum(axis=1, keepdims=True) is the n x 1 column of row sums (row sum: uninterpreted function of the row)")
+    return [(p, smatrix(mat.meta["n"], z3.IntVal(1), lambda i, j, mat=mat: ROWSUM(_row(mat, i), mat.meta["m"])))]
+
+
+def sm_binop(ex, p, args, kw, node, sym=None):
+    a, b = args
+    mat, other, left = (a, b, True) if isinstance(a, Opq) and a.kind == "SMatrix" else (b, a, False)
+    if not (isinstance(mat, Opq) and mat.kind == "SMatrix" and isinstance(other, Num)):
+        raise Unsupported("matrix arithmetic other than scalar (op) matrix")
+    c = other.real()
+    ops = {"-": (lambda x: x - c) if left else (lambda x: c - x), "+": lambda x: x + c, "*": lambda x: x * c}
+    if sym not in ops:
+        raise Unsupported(f"matrix operator {sym}")
+    f = ops[sym]
+    return [(p, smatrix(mat.meta["n"], mat.meta["m"], lambda i, j, mat=mat, f=f: f(mat.meta["cell"](i, j))))]
+
+
+def np_c_(ex, p, args, kw, node):
+    """assumed (numpy): np.c_[A, B] for an n x m and an n x k matrix is the n x (m + k) matrix [A | B]"""
+    idx = args[0]
+    if not (isinstance(idx, Tup) and len(idx.items) == 2 and all(isinstance(x, Opq) and x.kind == "SMatrix" for x in idx.items)):
+        raise Unsupported("np.c_ of anything but two matrices")
+    a, b = idx.items
+    ex.side.append((f"np.c_-same-number-of-rows@{ex.module.name}:{getattr(node, 'lineno', 0)}", list(p.cond), a.meta["n"] == b.meta["n"]))
+    ex.trace["assumed"].add("numpy: np.c_[A, B] is the column-wise concatenation [A | B]")
+    ma = a.meta["m"]
+    return [(p, smatrix(a.meta["n"], ma + b.meta["m"],
+                        lambda i, j, a=a, b=b, ma=ma: z3.If(j < ma, a.meta["cell"](i, j), b.meta["cell"](i, j - ma))))]
+
+
+def sm_argmax(ex, p, args, kw, node):
+    mat = args[0]
+    ax = kw.get("axis")
+    if not (isinstance(ax, Num) and z3.is_int_value(z3.simplify(ax.t)) and z3.simplify(ax.t).as_long() == 1):
+        raise Unsupported("matrix.argmax other than argmax(axis=1)")
+    ex.trace["assumed"].add("numpy: m.argmax(axis=1)[i] is a function of row i (uninterpreted), an index into the row")
+    return [(p, NDArr(mat.meta["n"], lambda i, mat=mat: Num(ARGMAX(_row(mat, i), mat.meta["m"])), "int64"))]
+
+
+def np_array(ex, p, args, kw, node):
+    """np.array(list of numbers): the 1-d array with those entries"""
+    xs = ex.as_list(args[0], p, node)
+    return [(p, NDArr(xs.length(), lambda i, xs=xs: xs.at(i), "int64"))]
+
+
+def _arr1(v, n_hint=None):
+    i = z3.Int("arr_i")
+    el = v.at(i)
+    t = el.t if getattr(el, "is_int", False) else z3.ToInt(el.real())
+    return z3.Lambda([i], t), (v.n if isinstance(v, NDArr) else v.length())
+
+
+def _mat2(mat):
+    i, j = z3.Int("m2_i"), z3.Int("m2_j")
+    return z3.Lambda([i], z3.Lambda([j], mat.meta["cell"](i, j)))
+
+
+SK = {name: z3.Function("sklearn_" + name, A1I, A1I, z3.IntSort(), z3.RealSort()) for name in ("accuracy_score", "balanced_accuracy_score")}
+SK_TOPK = z3.Function("sklearn_top_k_accuracy_score", A1I, A2, z3.IntSort(), z3.IntSort(), z3.IntSort(), z3.RealSort())
+
+
+def sk_labels(name):
+    def h(ex, p, args, kw, node):
+        """assumed (scikit-learn): the score is a function of (y_true, y_pred) -- uninterpreted"""
+        yt, yp = kw.get("y_true", args[0] if args else None), kw.get("y_pred", args[1] if len(args) > 1 else None)
+        a, n = _arr1(yt)
+        b, n2 = _arr1(yp)
+        ex.side.append((f"sklearn.{name}-equal-lengths@{ex.module.name}:{getattr(node, 'lineno', 0)}", list(p.cond), n == n2))
+        ex.trace["assumed"].add(f"scikit-learn {name}: a function of the two label arrays (values: stand-in only)")
+        return [(p, Num(SK[name](a, b, n)))]
+    return h
+
+
+def sk_topk(ex, p, args, kw, node):
+    """assumed (scikit-learn): top_k_accuracy_score(y_true, y_score, k, normalize=True, labels=0..m-1) is a function of
+    (y_true, y_score, k); the labels must be exactly the column indices"""
+    yt, ys, k = kw["y_true"], kw["y_score"], kw["k"]
+    a, n = _arr1(yt)
+    norm, labels = kw.get("normalize", Bool(z3.BoolVal(True))), kw.get("labels")
+    goal = [n == ys.meta["n"], norm.t]
+    if labels is not None:
+        ls = ex.as_list(labels, p, node)
+        q = z3.Int("lbl_q")
+        goal += [ls.length() == ys.meta["m"], z3.ForAll([q], z3.Implies(z3.And(q >= 0, q < ls.length()), ls.at(q).t == q))]
+    ex.side.append((f"sklearn.top_k-labels-are-the-column-indices@{ex.module.name}:{getattr(node, 'lineno', 0)}", list(p.cond), z3.And(goal)))
+    ex.trace["assumed"].add("scikit-learn top_k_accuracy_score: a function of (y_true, y_score, k) (values: stand-in only)")
+    return [(p, Num(SK_TOPK(a, _mat2(ys), n, ys.meta["m"], k.t)))]
+
+
+SCORE_MATRIX_MODEL = {
+    "attr:SMatrix.shape": sm_shape, "method:SMatrix.sum": sm_sum, "method:SMatrix.argmax": sm_argmax,
+    "op:-": lambda ex, p, args, kw, node: sm_binop(ex, p, args, kw, node, "-"),
+    "getitem:numpy.c_": np_c_, "numpy.array": np_array,
+    "sklearn.metrics.accuracy_score": sk_labels("accuracy_score"),
+    "sklearn.metrics.balanced_accuracy_score": sk_labels("balanced_accuracy_score"),
+    "sklearn.metrics.top_k_accuracy_score": sk_topk,
+}
